@@ -167,3 +167,34 @@ Proof.
   rewrite (find_backwards_exact ceq_exact d [ch] true n l G).
   destruct (nth_match l n); reflexivity.
 Qed.
+
+(* T c: back to just after the count-th occurrence before the cursor on the cursor line *)
+Lemma span_T d n hc ch l :
+  greedy (occ ceq_exact (rev [ch]) (rev (current_line_before_cursor d))) (fstep [ch]) 0 l ->
+  text_object (T_T ch) d n hc =
+  match nth_match l n with
+  | Some p => if - p - 1 =? 0 then TO (mk1 0) true else excl0 (- p - 1 + 1)
+  | None => TO (mk1 0) true
+  end.
+Proof.
+  intros G. cbn [text_object].
+  rewrite (find_backwards_exact ceq_exact d [ch] true n l G).
+  destruct (nth_match l n); reflexivity.
+Qed.
+
+(* ; and , : the last f/F/t/T search repeated, in its own or the opposite
+   direction; they ARE f (inclusive) resp. F (exclusive) on the stored character *)
+Lemma span_repeat_forward d n hc reverse ch backwards :
+  xorb backwards reverse = false ->
+  text_object (T_repeat reverse true ch backwards) d n hc = text_object (T_f ch) d n hc.
+Proof. intros H. cbn [text_object]. rewrite H. reflexivity. Qed.
+
+Lemma span_repeat_backward d n hc reverse ch backwards :
+  xorb backwards reverse = true ->
+  text_object (T_repeat reverse true ch backwards) d n hc =
+  if_match (dfind_backwards ceq_exact d [ch] true n) (fun v => v) EXCL.
+Proof. intros H. cbn [text_object]. rewrite H. reflexivity. Qed.
+
+Lemma span_repeat_none d n hc reverse ch backwards :
+  text_object (T_repeat reverse false ch backwards) d n hc = TO (mk1 0) true.
+Proof. reflexivity. Qed.
